@@ -98,13 +98,13 @@ def _static(
     for d in [Path(dawgie.context.fe_path).resolve(), Path(bdir).resolve()]:
         ffn = (d / fn).resolve()
 
+        if ffn.is_dir():
+            ffn = (ffn / 'index.html').resolve()
         if not ffn.is_relative_to(d):
             result += b'attempted jail break'
             LOG.error('tried a jailbreak with %s from %s', ffn, d)
             valid = False
             continue
-        if ffn.is_dir():
-            ffn = ffn / 'index.html'
         if ffn.is_file():
             break
         result += bytes(ffn) + b'     '
